@@ -385,9 +385,11 @@ def richardson(repo, run, r5, info):
     if len(params) != 6:
         raise AnalysisError("adaptive_richardson signature changed: %s" % params)
     # statements that define the tableau: used as the reported construct
+    from ..sym import inline_locals
+    env_loc = inline_locals(fn)
     rec = [st for st in ast.walk(fn) if isinstance(st, ast.Assign) and isinstance(st.targets[0], ast.Subscript)
            and is_self_attr(st.targets[0].value, "stage_values") and any(
-               isinstance(n, ast.Subscript) and is_self_attr(n.value, "stage_values") for n in ast.walk(st.value))]
+               isinstance(n, ast.Subscript) and is_self_attr(n.value, "stage_values") for n in ast.walk(extract._subst(st.value, env_loc)))]
     rets = [st for st in walk_no_nested(fn) if isinstance(st, ast.Return)]
     if not rec or len(rets) != 1:
         raise AnalysisError("anchor missing: Neville recurrence / single return in adaptive_richardson")
